@@ -130,7 +130,7 @@ def gen(rng, tier):
             "dbfn": rng.choice(["a.db", "a.db", "a.db", ":memory:"]), "form": rng.choice(["path", "path", "string", "gz", "gen", "iter1"]),
             "end": rng.choice(["exit", "crash", "crash"]), "directives": rng.choice([[], [], ["gff-version 3"]]),
             "short_writes": rng.random() < 0.5, "interleave": rng.random() < 0.5, "isched": [rng.randrange(2) for _ in range(rng.randint(2, 12))],
-            "update_other_dialect": rng.random() < 0.35,
+            "update_other_dialect": rng.random() < 0.35, "failed_update_probe": rng.random() < 0.25,
             "crashed_first_attempt": rng.choice([None, None, None, {"frac": rng.random(), "mode": rng.choice(["crash", "crash", "torn", "cancel", "error"])}])}
 
 
@@ -286,6 +286,9 @@ def run(case):
                     if ur["ok"]:
                         probes["update_in_other_dialect_before_reopen"] = 1
                         case = dict(case, _extra_tail=1)
+                if ok and case.get("failed_update_probe") and not case.get("_extra_tail"):
+                    from sim.probes import failed_update_probe
+                    ok = failed_update_probe(w, call, node, "h", "a.db", d_["fmt"] == "gtf", V, viol, "C01.once", probes)
                 # process death right after the acknowledgement, or a normal exit
                 if ok:
                     if case["end"] == "crash":
